@@ -23,6 +23,8 @@ type c09Config struct {
 	Floor      int
 	FloorConst int
 	FloorAgg   int
+	FloorField int
+	FloorProp  int
 }
 
 func init() {
@@ -32,20 +34,32 @@ func init() {
 		Explanation: "NOT NULL clause of 'result values conform to the result schema'. The nullability of a result column is what the expression's IsNullable reports. " +
 			"Decided: for every concrete type implementing sql.Expression whose IsNullable is the constant false (every return of its SSA is the constant false), the Eval that " +
 			"the type's method set resolves to has no return of the literal pair (nil, nil) - directly, through a phi of literal nils, or through a statically resolved module helper " +
-			"whose own returns are followed (3 levels). Such a return makes a column that the engine announces as NOT NULL carry NULL.",
-		NotCovered: "values outside the reported type, NULLs that flow out of child expressions or interface calls (run-time values), nullability of unions and outer joins, IsNullable implementations that are computed from children",
-		Technique:  "sibling agreement over all implementations of an interface: constant folding of IsNullable + SSA return-shape analysis of Eval with helper summaries",
+			"whose own returns are followed (3 levels). Such a return makes a column that the engine announces as NOT NULL carry NULL. " +
+			"(E3) for every implementation with a COMPUTED IsNullable: each receiver-field configuration G (conjunction of field == nil / len(field) == 0 / bool-field tests, read from the SSA " +
+			"branch conditions; the zero-iteration exit of `for range recv.field` is len(field) == 0) under which Eval reaches a return of the literal (nil, nil) crossing field tests only - the node " +
+			"then yields NULL for every row whatever the data, e.g. a CASE without ELSE, a wrapper without inner expression - is folded into IsNullable: with G fixed, every return IsNullable can reach " +
+			"must be the constant true; a reachable `false`, or the nullability of a child (false for a NOT NULL child), is a violation. A configuration under which IsNullable itself dereferences " +
+			"the nil field (method call through it) is one the type does not support: not applicable (defensive nil tests in Eval). " +
+			"(E4) NULL in, NULL out: for every child field X of such a type whose evaluated value is tested for nil in Eval with the nil edge leading to a return of the literal (nil, nil) - the path " +
+			"from the entry crosses only receiver-field tests, `err == nil` edges and the non-nil edges of other children's values - IsNullable folded under the assumption X.IsNullable() == true " +
+			"(and the path's field configuration) must return true on every path: a nullable argument makes the result nullable. IsNullable implementations that reach children through a collection " +
+			"(for _, ch := range e.Children()) are not related to one child: not decided.",
+		NotCovered: "values outside the reported type, NULLs that flow out of child expressions or interface calls (run-time values), nullability of unions and outer joins; for computed IsNullable only the structurally NULL configurations of E3 are decided: NULLs that depend on evaluated values (NULL in -> NULL out, invalid input -> NULL) are not related to IsNullable, " +
+			"returns of (nil, nil) behind any data-dependent branch or inside helpers of Eval are not read, and a configuration that constructors rule out (arity checks) is not recognised as unreachable",
+		Technique: "sibling agreement over all implementations of an interface: constant folding of IsNullable + SSA return-shape analysis of Eval with helper summaries",
 		Run: func(c *Ctx) {
 			rels := []string{}
 			for _, pk := range c.P.Module {
 				rels = append(rels, strings.TrimPrefix(strings.TrimPrefix(pk.PkgPath, modPath), "/"))
 			}
-			runC09(c, c09Config{Rels: rels, IfaceRel: "sql", Iface: "Expression", NullableM: "IsNullable", EvalM: "Eval", AggIface: "Aggregation", NewBufferM: "NewBuffer", Floor: 44, FloorConst: 330, FloorAgg: 5})
+			runC09(c, c09Config{Rels: rels, IfaceRel: "sql", Iface: "Expression", NullableM: "IsNullable", EvalM: "Eval", AggIface: "Aggregation", NewBufferM: "NewBuffer", Floor: 44, FloorConst: 330, FloorAgg: 5, FloorField: 3, FloorProp: 75})
 		},
 		Fixture: func(c *Ctx, fx *Prog) {
 			expectFixture(c, fx, "c09: direct nil,nil; nil through phi; nil through helper",
 				[]string{"C09-E1:testdata/c09/expr.Direct", "C09-E1:testdata/c09/expr.ViaPhi", "C09-E1:testdata/c09/expr.ViaHelper", "C09-E1:testdata/c09/expr.Promoted",
-					"C09-E2:testdata/c09/expr.NullSum", "C09-E2:testdata/c09/expr.RawMax"},
+					"C09-E2:testdata/c09/expr.NullSum", "C09-E2:testdata/c09/expr.RawMax",
+					"C09-E3:testdata/c09/expr.CaseNoElse", "C09-E3:testdata/c09/expr.OptArg", "C09-E3:testdata/c09/expr.Flagged",
+					"C09-E4:testdata/c09/expr.FormatLike/Right", "C09-E4:testdata/c09/expr.FormatLike/Left", "C09-E4:testdata/c09/expr.BothNeeded/Right"},
 				func(fc *Ctx) {
 					runC09(fc, c09Config{Rels: []string{"testdata/c09/expr"}, IfaceRel: "testdata/c09/expr", Iface: "Expression", NullableM: "IsNullable", EvalM: "Eval", AggIface: "Aggregation", NewBufferM: "NewBuffer"})
 				})
@@ -61,6 +75,8 @@ func runC09(c *Ctx, cfg c09Config) {
 	c.Rule("C09-E1", "for every sql.Expression implementation whose IsNullable is the constant false: no return of Eval yields the literal (nil, nil), directly, via phi, or via a statically resolved module helper", cfg.Floor)
 	c.Rule("C09-E2", "for every sql.Aggregation whose IsNullable is the constant false: the Eval of each concrete buffer its NewBuffer constructs has no literal (nil, nil) return and does not return a raw interface-typed buffer field that the buffer's constructor leaves nil (the value for an empty group)", cfg.FloorAgg)
 	c.Rule("C09-E0", "IsNullable of every sql.Expression implementation is classified: constant false / constant true / computed (info; only constant-false types carry the E1 obligation)", cfg.FloorConst)
+	c.Rule("C09-E3", "for every sql.Expression implementation with a computed IsNullable: under each receiver-field configuration (field == nil, len(field) == 0, bool field) for which Eval reaches a return of the literal (nil, nil) through field tests only, IsNullable folded under the same configuration returns true on every path", cfg.FloorField)
+	c.Rule("C09-E4", "NULL in, NULL out is mirrored: for every implementation with a computed IsNullable and every child field X such that Eval returns the literal (nil, nil) because the evaluated value of X is nil (the path crosses only receiver-field tests, `err == nil` edges and `value != nil` edges of other children), IsNullable folded under `X.IsNullable() == true` returns true on every path", cfg.FloorProp)
 	iface := ngLookupIface(c.P, cfg.IfaceRel, cfg.Iface)
 	if iface == nil {
 		c.Undecided("C09-E1", "anchors", 0, "interface "+cfg.IfaceRel+"."+cfg.Iface+" not found")
@@ -71,6 +87,8 @@ func runC09(c *Ctx, cfg c09Config) {
 		nullable *types.Func
 		eval     *types.Func
 		newBuf   *types.Func
+		it       types.Type
+		pkg      *types.Package
 	}
 	var aggIface *types.Interface
 	if cfg.AggIface != "" {
@@ -113,7 +131,7 @@ func runC09(c *Ctx, cfg c09Config) {
 			if nf == nil || ef == nil {
 				continue
 			}
-			im := impl{tn, nf.Origin(), ef.Origin(), nil}
+			im := impl{tn, nf.Origin(), ef.Origin(), nil, it, pk.Types}
 			if aggIface != nil && types.Implements(it, aggIface) {
 				if bo, _, _ := types.LookupFieldOrMethod(it, true, pk.Types, cfg.NewBufferM); bo != nil {
 					if bf, ok := bo.(*types.Func); ok {
@@ -139,6 +157,10 @@ func runC09(c *Ctx, cfg c09Config) {
 		class := c09ConstBool(nsf)
 		counts[class]++
 		c.Ok("C09-E0", key, im.tn.Pos(), "IsNullable: "+class)
+		if class == "computed" {
+			c09CheckFieldNull(c, key, im.it, im.pkg, im.nullable, im.eval, cfg)
+			c09CheckNullProp(c, key, im.it, im.pkg, im.nullable, im.eval, cfg)
+		}
 		if class != "constant false" {
 			continue
 		}
@@ -163,6 +185,7 @@ func runC09(c *Ctx, cfg c09Config) {
 			key, c.P.Rel(im.nullable.Pos()), ngFuncKey(im.eval)), hits...)
 	}
 	c.Notef("IsNullable classes over %d sql.Expression implementations: %v", len(impls), counts)
+	dumpObsIfAsked(c)
 }
 
 func c09TypeKey(tn *types.TypeName) string {
@@ -223,7 +246,7 @@ func (a *c09Analyzer) nilNilReturns(sf *ssa.Function, depth int) []string {
 		if !ok || len(ret.Results) != 2 {
 			continue
 		}
-		v, e := ret.Results[0], ret.Results[1]
+		v, e := c09RetVal(ret, 0), c09RetVal(ret, 1)
 		pos := a.c.P.Rel(ret.Pos())
 		switch {
 		case ngIsNilConst(v) && ngIsNilConst(e):
